@@ -1261,6 +1261,8 @@ class Interp:
                 return FArgs([x[1] for x in r0.items])
         if path.endswith("RangeInclusive::new") and len(a) == 2:
             return St("core::ops::range::RangeInclusive", {"start": a[0], "end": a[1]})
+        if path.endswith(("::from_ref", "::from_mut")) and ("slice::" in path or "array::" in path) and len(a) == 1:
+            return Lst([a[0]])
         if path.endswith(("iter::empty",)):
             return ListIt([])
         if path.endswith(("iter::once",)):
